@@ -396,6 +396,13 @@ def apply_rules(text, relpath):
                 k += 1
             text = text[:m.start()] + text[k + 1:]
             count('R9')
+    # R13: hand-written text-formatting and byte-sink trait impls (`impl fmt::Debug/Display for T`, `impl std::io::Write for T`)
+    # are no codec path and use formatting machinery outside Verus: marked `#[verifier::external]` (rustc still sees them,
+    # the verifier does not; the C19 frame scan reads them from the real source)
+    bb, _ = rs.blank(text)
+    for m in reversed(list(re.finditer(r'(?m)^([ \t]*)impl\s*(<[^>{}]*>\s*)?(?:(?:std|core)::)?(?:fmt::(?:Debug|Display)|io::Write)\s+for\s+[^{;]+\{', bb))):
+        text = text[:m.start()] + m.group(1) + '#[verifier::external]\n' + text[m.start():]
+        count('R13')
     # R12: a `const` whose initialiser the front end rejects (`trailing_zeros()`, ...) keeps its declaration but becomes
     # opaque (`#[verifier::external_body]`); every function that mentions it is degraded (splice_fn)
     for name in sorted(OPAQUE_CONSTS):
@@ -976,7 +983,13 @@ class Gen:
         extra += self.from_companions(text, blocks, modpath)
         b, _ = rs.blank(text)
         edits = []
+        # functions inside impls the image marks `#[verifier::external]` (R13) are outside the verified text altogether
+        ext_ranges = []
+        for m in re.finditer(r'#\[verifier::external\]\s*impl\b[^{;]*\{', b):
+            ext_ranges.append((m.start(), rs.match_bracket(b, m.end() - 1)))
         for f in fns:
+            if any(lo <= f.kw <= hi for lo, hi in ext_ranges):
+                continue
             self.fn_index.append(f.key)
             c = self.contracts.get(f.key)
             if c is not None:
